@@ -5,20 +5,20 @@ import toklib as T
 
 def run(ck):
     bindir, model = K.setup(ck)
-    n = 1500 if ck.quick else 40000
+    n = 6000 if ck.quick else 40000
     corr = [T.gen_case(ck.rng, "x") for _ in range(n)]
     K.correspondence(ck, bindir, model, corr, "xml tokenizer")
     K.reference_leg(ck, model, corr)
-    inputs = K.gen_inputs(ck, 900 if ck.quick else 30000, "x")
+    inputs = K.gen_inputs(ck, 3600 if ck.quick else 30000, "x")
     r = ck.rng
     # line breaks / NUL next to references, in attribute values, doctypes, comments
-    for _ in range(300 if ck.quick else 8000):
+    for _ in range(1200 if ck.quick else 8000):
         inputs.append("<a b=%s>%s</a>%s" % (r.choice(['"x\ry\0"', "'\r\n'", "v\r", '"&amp\r"', '"&#10;\r\n"']),
                                                r.choice(["p\0q", "&amp\rX", "&\rX", "&#65\r\n", "&lt;\r", "\r\r\n\n", "&x;\r"]),
                                                r.choice(["", "<!DOCTYPE a\r\npublic \"x\">", "<!--\r\0-->", "<?p \r\n?>", "<![CDATA[\r\0]]>"])))
     e1, f1 = K.chunk_oracle(ck, bindir, "x", inputs, "C15")
-    e2, f2 = K.tree_chunk_oracle(ck, bindir, "x", inputs[: (500 if ck.quick else 15000)])
-    e3, f3 = K.options_oracle(ck, bindir, "x", inputs[: (500 if ck.quick else 15000)])
+    e2, f2 = K.tree_chunk_oracle(ck, bindir, "x", inputs[: (2000 if ck.quick else 15000)])
+    e3, f3 = K.options_oracle(ck, bindir, "x", inputs[: (2000 if ck.quick else 15000)])
     e4, f4 = K.xml_normalisation_oracle(ck, bindir, inputs)
     ck.cov.update({
         "evaluations": n + e1 + e2 + e3 + e4,
